@@ -214,6 +214,9 @@ def plan(tier, seed):
         jobs.append({"sub": "grid", "seed": seed, "shard": k, "nshards": 16, "cost": 5})
     for k in range(4):
         jobs.append({"sub": "ties", "seed": seed, "shard": k, "nshards": 4, "tier": tier, "cost": 6})
+    for k, (n, ratios) in enumerate([(60000, [Fraction(1, 2), Fraction(3, 10), Fraction(1, 5)]), (100000, [Fraction(1, 4)] * 4),
+                                     (50001, [Fraction(7, 10), Fraction(1, 5), Fraction(1, 10)])] + ([(250000, [Fraction(1, 5)] * 5)] if tier == "thorough" else [])):
+        jobs.append({"sub": "big_n", "seed": seed, "n": n, "ratios": [fstr(r) for r in ratios], "index": k, "cost": 12})
     n = scaled(16000 if tier == "quick" else 240000)
     shards = 16 if tier == "quick" else 64
     for k in range(shards):
@@ -240,6 +243,16 @@ def run(job):
                         acc.record(case, [], False)
                         acc.violation(case, v)
         acc.exhaustive = True
+    elif job["sub"] == "big_n":
+        # tens of thousands of observations in one environment, three or more folds (a library may switch to index sampling)
+        case = {"sub": "big_n", "sizes": [job["n"], 7], "ratios": job["ratios"], "seed": job["seed"] + job["index"], "width": 1, "vary_seed": False}
+        try:
+            lab = check(case)
+            acc.record(case, lab + ["big_n"], True, by_construction=True)
+        except Violation as v:
+            acc.record(case, [], False)
+            acc.violation(case, v)
+        acc.exhaustive = False
     elif job["sub"] == "ties":
         # n x ratio exactly half-way for a two-decimal ratio: (n, a) with n * a / 100 = k + 1/2.  Whether that is a real tie
         # depends on the double that stands for a/100 - e.g. 10 x 0.55 (the double is slightly above 11/20) is 6 under
